@@ -149,6 +149,31 @@ class CteRef:
         return {"from.cte_ref_aliased" if self.alias else "from.cte_ref"}
 
 
+class Nested:
+    """parenthesised join group used as the right-hand side of a join: a JOIN (b JOIN c ON ...) ON ...; its relations belong to the enclosing scope"""
+    kind = "nested"
+
+    def __init__(self, group):
+        self.group = group
+
+    def key(self):
+        return self.group.first.key()
+
+    def render(self, r):
+        return "(" + self.group.render(r) + ")"
+
+    def tags(self):
+        t = {"join.parenthesised_group"}
+        if getattr(self.group.first, "alias", None):
+            t.add("join.parenthesised_group_first_aliased")
+        for rel in self.group.rels():
+            t |= rel.tags()
+        for jt, rel, cond in self.group.joins:
+            t.add("join." + jt.replace(" ", "_"))
+            t.add("join.cond_" + cond)
+        return t
+
+
 # --------------------------------------------------------------------------- expressions
 class E:
     """expression tree: kind in col|lit|arith|func|case|cast|window|coalesce|scalar"""
@@ -293,7 +318,10 @@ class Group:
         self.first, self.joins = first, list(joins)  # joins: (jtype, rel, cond) cond in on|using|none
 
     def rels(self):
-        return [self.first] + [j[1] for j in self.joins]
+        out = [self.first]
+        for j in self.joins:
+            out += j[1].group.rels() if j[1].kind == "nested" else [j[1]]
+        return out
 
     def render(self, r):
         s = self.first.render(r)
@@ -369,6 +397,8 @@ class Select:
                 t.add("join.cond_" + cond)
                 if rel.kind == "derived":
                     t.add("join.derived_table")
+                if rel.kind == "nested":
+                    t |= rel.tags()
             if g.joins and g.first.kind == "derived":
                 t.add("join.derived_table")
         # KF-24 shape: the FROM clause has an explicit JOIN and one of its derived tables contains a JOIN at any depth:
@@ -803,7 +833,11 @@ class Gen:
             al = self.nm.alias()
         return Base(self.nm.table(), sc, al, use_as=r.random() < 0.5)
 
-    def join_group(self, rels):
+    def join_group(self, rels, allow_nested=True):
+        if allow_nested and len(rels) >= 3 and self.rnd.random() < 0.2:
+            inner = self.join_group(rels[1:], allow_nested=False)
+            inner.joins = [(jt if jt not in ("natural", "cross") else "inner", rel, "on") for jt, rel, _ in inner.joins]
+            return Group(rels[0], [(self.rnd.choice(["inner", "left", "right"]), Nested(inner), "on")])
         joins = []
         for rel in rels[1:]:
             jt = self.rnd.choice(JOIN_TYPES)
@@ -1075,6 +1109,7 @@ def from_shapes(g):
     shapes["mixed_comma_join"] = lambda g: [g.join_group([_noalias(g.base(schema=None)), _noalias(g.base(schema=None))]), Group(_noalias(g.base(schema=None)))]
     shapes["mixed_comma_join_first"] = lambda g: [Group(_noalias(g.base(schema=None))), g.join_group([g.base(force_alias=True, schema=None), g.base(force_alias=True, schema=None)])]
     shapes["self_join"] = lambda g: _self_join(g)
+    shapes["join_nested_group"] = lambda g: [Group(_noalias(g.base(schema=None)), [("inner", Nested(Group(g.base(force_alias=True, schema=None), [("left", _noalias(g.base(schema="sa")), "on")])), "on")])]
     return shapes
 
 
@@ -1285,13 +1320,18 @@ def risk(stmt, ds=None):
             return
         if len(q.groups) > 1 and any(g.joins for g in q.groups):
             for g in q.groups:
-                for _, rel, _ in g.joins:
+                for rel in g.rels()[1:]:
                     if rel.kind == "base":
                         add("from.mixed_comma_join", {rel.full(ds)})
                     elif rel.kind == "derived":
                         add("from.mixed_comma_join", rel.query.reads(ds))
             for rel in q.rels()[1:]:
                 add("from.mixed_comma_join_any", {rel.full(ds)} if rel.kind == "base" else rel.query.reads(ds) if rel.kind == "derived" else set())
+        for g in q.groups:
+            for _, rel, _ in g.joins:
+                if rel.kind == "nested":
+                    for r2 in rel.group.rels():
+                        add("join.parenthesised_group", {r2.full(ds)} if r2.kind == "base" else r2.query.reads(ds) if r2.kind == "derived" else set())
         for it in q.items:
             if not it.is_star:
                 for s in it.expr.subqueries():
@@ -1326,7 +1366,7 @@ def risk(stmt, ds=None):
         frm = e.get("from") or []
         if len(frm) > 1 and any(g.joins for g in frm):
             for g in frm:
-                for _, rel, _ in g.joins:
+                for rel in g.rels()[1:]:
                     if rel.kind == "base":
                         add("from.mixed_comma_join", {rel.full(ds)})
         for g in frm:
